@@ -77,6 +77,22 @@ CLAIMED = {
         ref="DESIGN.md §6 C13",
         technique="Lean 4 proof (Mathlib ℚ exactness, decide over regenerated tables) + differential correspondence",
     ),
+    "C01": dict(
+        text="Proof (partial: fragment F1) + correspondence against a declarative meaning. Proved in Lean for every width, nesting depth, "
+        "step and sign: SliceResolver (_list_slice/_resolve_slice/_resolve_concat) preserves the denoted bit list, returns only "
+        "signals and signal-level slices, and the positional MSB-first reading of the exported target (inclusive top, reversed "
+        "concat parts) equals the designer's bits, bit i to bit i (connection_preserved, bit_i_to_bit_i, concat_order). Everything "
+        "beyond F1 — port-reference groups, no-connects, arrays, bundles / anonymous bundles / bundle references, pairs, and the "
+        "composition across hierarchy — is decided by correspondence: Sem.src (Lean, declarative, no reference to any pass) vs "
+        "Sem.pkg of the real package (Lean, netlister reading) vs the partition read from the spice text, plus leaf devices and "
+        "parameters, on generated designs over all constructs in three construction styles.",
+        note="Sem.src / Sem.pkg / the net solver are specifications executed by the driver (Design.lean, Pkg.lean, Nets.lean); the "
+        "pass-by-pass preservation theorems for F2/F3 are not proved. vlsirtools' positional reading is modelled and validated "
+        "against the netlist text on every design. Designs the unchanged code rejects although well-formed are listed in "
+        "designs.known_limitation and stepped around.",
+        ref="DESIGN.md §6 C01",
+        technique="Lean 4 proof for F1 (resolver soundness by induction on fuel, export/read round trip) + declarative-semantics differential correspondence",
+    ),
 }
 NOT_YET = {}
 
